@@ -158,6 +158,8 @@ type psRoles struct {
 	satAdd, abs                                   *ssa.Function
 }
 
+var taskNeverNil bool
+
 func newPathSum(cx *Ctx) *PathSum {
 	ps := &PathSum{cx: cx, funcs: map[string]*ssa.Function{}, closures: map[string]*psClosure{}, fresh: map[string][]string{}, maxDepth: 9, loopBound: 1, pathCap: 30000, noInline: map[*ssa.Function]bool{}, inlineLoops: map[*ssa.Function]bool{}, asEvents: map[*ssa.Function]string{}, eventExtra: map[*ssa.Function][]string{}}
 	if r := os.Getenv("OTTERLINT_RELEVANT"); r != "" {
@@ -192,6 +194,29 @@ func newPathSum(cx *Ctx) *PathSum {
 	ev("AtomicNotify", "cache", "notifyAtomicDeletion")
 	ev("AsyncNotify", "cache", "notifyDeletion")
 	ev("Task", "cache", "getTask")
+	// a task handed out by getTask is an object (pool item or fresh allocation): it is never nil unless getTask says so
+	taskNeverNil = false
+	if f := P.Func("", "cache", "getTask"); f != nil {
+		taskNeverNil = true
+		allInstrs(origin(f), func(in ssa.Instruction) {
+			if ret, ok := in.(*ssa.Return); ok {
+				for _, r := range ret.Results {
+					switch x := r.(type) {
+					case *ssa.Const:
+						taskNeverNil = false
+					case *ssa.Phi:
+						for _, e := range x.Edges {
+							if c, isC := e.(*ssa.Const); isC && c.IsNil() {
+								taskNeverNil = false
+							}
+						}
+					case *ssa.Parameter:
+						taskNeverNil = false
+					}
+				}
+			}
+		})
+	}
 	ev("Enqueue", "cache", "afterWriteTask")
 	ev("RunTask", "cache", "runTask")
 	ev("ScheduleDrain", "cache", "scheduleDrainBuffers")
@@ -874,6 +899,8 @@ func (ps *PathSum) binop(f *psFrame, x *ssa.BinOp) string {
 			switch {
 			case o == "nil":
 				t = "true"
+			case taskNeverNil && strings.HasPrefix(o, "task("):
+				t = "false"
 			case strings.HasPrefix(o, "fresh") || strings.HasPrefix(o, "closure:") || strings.HasPrefix(o, "&") || strings.HasPrefix(o, "newcall") || strings.HasPrefix(o, "panicerr") || o == "panicval" || isMadeTerm(o) || strings.HasPrefix(o, "handler:"):
 				t = "false"
 			default:
